@@ -20,7 +20,7 @@ of the configuration); the `RenderableData` fields (frame_offset, seek_whence, s
 iteration); `_render_args`, `_padding`, `_padded_size`, `loop`, `_loops`, `_cached`,
 `_render_data.finalized`; of the renderable: `tell()` and the stream position of an INDEFINITE source
 (frame count, size, stream length are constants; the render counters are write-only).  The terminal
-size is constant.  Two histories with equal keys therefore drive both the real code and the model
+size (changed only by the explicit resize operation) is part of the key.  Two histories with equal keys therefore drive both the real code and the model
 through identical futures.  The claim is cross-checked by enumerating ALL histories up to a smaller
 depth without merging and walking them against the merged graph (observation and successor state of
 every step must be the ones recorded).
@@ -61,6 +61,8 @@ def configs(tier):
         out.append((cfg_of("I3", 1, False, 100, "E0", "small"), 0))
         out.append((cfg_of("I3", 2, True, "DYN", "Arel", "small"), 0))     # loops / cache ignored
         out.append((cfg_of("I4", 1, False, 100, "E0", "tiny"), 0))
+        out.append((cfg_of(2, 2, False, 100, "Arel", "resize"), 0))       # terminal resizes x relative paddings
+        out.append((cfg_of(2, -1, True, "DYN", "Arel2", "resize"), 0))
         out.append((cfg_of(2, 2, True, 100, "E0", "tiny"), 3))
         out.append((cfg_of("I3", 1, False, 100, "E0", "tiny"), 3))
         out.append((cfg_of(3, 2, False, 100, "E0", "tiny"), 2))
@@ -87,6 +89,9 @@ def configs(tier):
             for dur0 in (100, "DYN"):
                 out.append((cfg_of("I3", loops, cache, dur0, "E0" if dur0 == 100 else "Arel", "full"), 0))
         out.append((cfg_of("I4", 1, False, 100, "E0", "small"), 0))
+        for n, loops, cache, pad0 in ((2, 2, False, "Arel"), (3, -1, True, "Arel2"), (3, 2, 2, "E0"), ("I3", 1, False, "Arel"),
+                                      (2, 3, True, "Arel")):
+            out.append((cfg_of(n, loops, cache, 100, pad0, "resize"), 0))
         out.append((cfg_of("I4", 2, True, "DYN", "Arel", "small"), 0))
         # unmerged cross-checks: depth 4 on the reduced alphabet, depth 3 on a richer one
         out.append((cfg_of(2, 2, True, 100, "E0", "tiny"), 4))
@@ -207,7 +212,8 @@ def run(ctx):
     ctx.assumptions += [
         "the harness renderable (vlib/renderables.py TextR) is a pure function of (frame, size, duration, args) and "
         "implements every seek of an INDEFINITE stream",
-        "terminal size constant (8x6) during a history",
+        "terminal size 8x6 at the start of every history; it only changes through the explicit resize operation of "
+        "the 'resize' profile (8x6 <-> 6x5)",
         "canon soundness as argued in the module docstring, cross-checked by unmerged enumeration",
     ]
 
